@@ -374,7 +374,13 @@ class DataFormat(object):
             quoting = DataFormat._validated_choice(KEY_QUOTING, value, _VALID_QUOTING, location, ignore_case=True)
             self.quoting = QUOTING_TO_CSV_QUOTE_MAP[quoting]
         elif name == KEY_SHEET:
-            self.sheet = DataFormat._validated_int_at_least_0(KEY_SHEET, value, location)
+            sheet = DataFormat._validated_int_at_least_0(KEY_SHEET, value, location)
+            if sheet < 1:
+                raise errors.InterfaceError(
+                    "data format property %s is %d but must be at least 1" % (_compat.text_repr(KEY_SHEET), sheet),
+                    location,
+                )
+            self.sheet = sheet
         elif name == KEY_SKIP_INITIAL_SPACE:
             self.skip_initial_space = DataFormat._validated_bool(KEY_SKIP_INITIAL_SPACE, value, location)
         elif name == KEY_THOUSANDS_SEPARATOR:
